@@ -183,6 +183,23 @@ def execute(case):
                 res.violations.append(V('C10.content-differs', '%s%s: source %s, copy %s' % (
                     k, bad[:2], _lazy._short(ref[k].get(bad[0]) if bad else ref[k]),
                     _lazy._short(got[k].get(bad[0]) if bad else got[k])), what=k))
+        if src['kind'] == 'stub' and case.get('cut') is None:
+            # the source's content is also known independently of the reader (the world model): the copy must hold
+            # what the source file encodes, not merely what the reader makes of the source
+            for p, ch in w.chans.items():
+                if ch.type in (None, 'daqmx'):
+                    continue
+                exp = _lazy.model_full(ch, True)
+                g_ = got['raw'].get(p)
+                res.compared += 1
+                if g_ is None:
+                    res.violations.append(V('C10.copy-differs-from-source-file', '%s is missing in the copy' % p, what='raw'))
+                elif g_[0] in ('arr', 'strs', 'rawts') and not (_lazy.full_len(exp) == 0 and _lazy.full_len(g_) == 0) \
+                        and not ops.agree(g_, exp):
+                    res.violations.append(V('C10.copy-differs-from-source-file', '%s: the copy holds %s, the source file encodes %s' % (
+                        p, _lazy._short(g_), _lazy._short(exp)), what='raw'))
+                if len(res.violations) > 3:
+                    break
         for p, n in ref['len'].items():
             if n and ref['dtype'].get(p) != got['dtype'].get(p):
                 res.violations.append(V('C10.dtype-changed', '%s: %s -> %s' % (p, ref['dtype'].get(p), got['dtype'].get(p))))
